@@ -263,6 +263,95 @@ def make_tree(rng, items, depth=0, maxdepth=3):
     return groups
 
 
+def _imp(mult, chunk):
+    return ['imp', mult, [[k[0], k[1], k[2], dec_text(c)] for k, c in chunk]]
+
+
+def nest_tree(rng, items, levels=2):
+    """A tree of the multiset *items* (at least two occurrences) in which a non-empty proper part of the atoms - the
+    core - sits under *levels* or more groups nested inside each other, EVERY one of them with a multiplier other
+    than 1, and the enclosing groups (as a rule) also hold atoms of their own next to the nested group
+    (`Mg3(Ca(OH)2 + 2H2O)3`, `(Fe2(SO4)3(H2O)9)2`): dropping, doubling or misplacing the multiplier of a level
+    changes the composition, not just the size of the cell.  The rest of the atoms is bracketed at random
+    (make_tree) at the top level.  Returns None when no chain of multipliers keeps every count renderable
+    (the caller draws again)."""
+    items = list(items)
+    if len(items) < 2 or levels < 1:
+        return None
+    rng.shuffle(items)
+    ncore = rng.randint(1, min(3, len(items) - 1))
+    core, rest = items[:ncore], items[ncore:]
+    # atoms standing directly in the enclosing groups (innermost enclosing group first); the core is a proper part
+    # of the multiset, so there is always an atom outside the innermost group
+    own = []
+    for _ in range(levels - 1):
+        n = rng.randint(1 if rng.random() < 0.8 else 0, min(2, len(rest))) if rest else 0
+        own.append(rest[:n])
+        rest = rest[n:]
+    m = _pick_multiplier(rng, [c for _, c in core])
+    if m is None:
+        return None
+    fm = Fraction(m)
+    inner = [(k, Fraction(c) / fm) for k, c in core]
+    if rng.random() < 0.5:
+        group = ['exp', m, [_imp(None, inner)] if rng.random() < 0.7 else make_tree(rng, inner, 2, 3)]
+    else:
+        group = _imp(m, inner)                  # counted implicit group, e.g. the 2H2O of (CaSO4+2H2O)3
+    for extra in own:
+        m = _pick_multiplier(rng, _leaf_counts(group) + [c for _, c in extra])
+        if m is None:
+            return None
+        fm = Fraction(m)
+        _divide_group(group, fm)
+        body = [group]
+        for k, c in extra:                      # each atom of the group's own before or after the nested group
+            body.insert(rng.randint(0, len(body)), _imp(None, [(k, Fraction(c) / fm)]))
+        group = ['exp', m, _merge_uncounted(body)]
+    tree = [group]
+    if rest:
+        for g in make_tree(rng, rest, 1, 3):
+            tree.insert(rng.randint(0, len(tree)), g)
+    return tree
+
+
+def _leaf_counts(group):
+    kind, _m, body = group
+    if kind == 'imp':
+        return [Fraction(row[3]) for row in body]
+    return [c for g in body for c in _leaf_counts(g)]
+
+
+def _divide_group(group, fm):
+    """Divide every count below *group* by fm, leaving its own multiplier alone (in place)."""
+    kind, _m, body = group
+    if kind == 'imp':
+        for row in body:
+            row[3] = dec_text(Fraction(row[3]) / fm)
+    else:
+        for g in body:
+            _divide_group(g, fm)
+
+
+def _merge_uncounted(groups):
+    """Adjacent uncounted implicit groups are one run of atoms in any rendering: join them."""
+    out = []
+    for g in groups:
+        if out and g[0] == 'imp' and not g[1] and out[-1][0] == 'imp' and not out[-1][1]:
+            out[-1] = ['imp', None, out[-1][2] + g[2]]
+        else:
+            out.append(g)
+    return out
+
+
+def nesting_of(tree, depth=0):
+    """Largest number of groups with a multiplier other than 1 that enclose one atom."""
+    best = depth
+    for kind, m, body in tree:
+        d = depth + (1 if m and Fraction(m) != 1 else 0)
+        best = max(best, d if kind == 'imp' else nesting_of(body, d))
+    return best
+
+
 def flat_tree(items):
     """One uncounted implicit group in the given order."""
     return [['imp', None, [[k[0], k[1], k[2], dec_text(c)] for k, c in items]]]
